@@ -58,6 +58,13 @@ def run_case(case, rng):
     case.sample = dict(spec=sp.describe())
     facts = dict(gamma=gamma, rep=rep)
 
+    if rng.random() < 0.6:
+        # a base MDP that was already used (matrix caches filled, possibly planned on) before anything is derived
+        case.call("base.arrays", lambda: (mdp.transition_matrix, mdp.reward_matrix, mdp.absorbing_state_vec,
+                                           mdp.state_action_reward_matrix, mdp.initial_state_vec))
+        if gamma < 1:
+            case.call("base.plan", ValueIteration(max_iterations=200).plan_on, mdp)
+        case.count("base_caches_prefilled")
     # ================= (a) augment ==================================================================
     ov_init = DictDistribution({S[-1]: 1.0})
     ov_funcs = {
@@ -227,6 +234,33 @@ def run_case(case, rng):
     inc_actions = rng.random() < 0.5
     semi = SemiMarkovDecisionProcess(mdp=mdp, options=[opt], n_option_simulations=nsim,
                                      include_mdp_actions=inc_actions, seed=sseed)
+    # two UNNAMED sub-goal options with different sub-goals in one semi-MDP, queried from the same state
+    if gamma < 1 and len(S) >= 3:
+        g1, g2 = rng.sample(S, 2)
+        mk = lambda g: PlanToSubgoalOption(mdp=mdp, initial_states=list(S), subgoals=[g],
+                                           planner=ValueIteration(max_iterations=300), max_steps=60)
+        o1, o2 = mk(g1), mk(g2)
+        semi2 = SemiMarkovDecisionProcess(mdp=mdp, options=[o1, o2], n_option_simulations=3, seed=sseed)
+        s0 = rng.choice([s for s in S if s not in (g1, g2)] or S)
+        for o_, g_ in ((o1, g1), (o2, g2), (o1, g1)):
+            cap2 = []
+            with wrap(Option, "run_on", after=lambda a, k, out, exc: cap2.append((out, exc))) as w2:
+                try:
+                    d_ = semi2.next_state_transit_time_reward_dist(s0, o_)
+                except AlgorithmException:
+                    d_ = None
+                except BaseException as e:
+                    if type(e).__name__ == "CaseTimeout":
+                        raise
+                    case.fail("exception:semimdp.unnamed-options", f"{type(e).__name__}: {e}")
+                    d_ = None
+            case.count("unnamed_option_queries")
+            if d_ is not None:
+                ends = {k[0] for k, p in d_.items() if p > 0}
+                case.check(ends <= {g_}, "semimdp:option-outcome-ends-outside-its-own-terminal-set",
+                           lambda: f"option to {g_!r} from {s0!r}: end states {ends!r}")
+                case.check(w2.calls == 3, "semimdp:outcome-distribution-not-from-its-own-simulations",
+                           f"{w2.calls} simulations ran for this query (3 configured)")
     for s in rng.sample(S, min(len(S), 3)):
         acts = case.call("semi.actions", semi.actions, s, facts=dict(include_mdp_actions=inc_actions,
                                                                    actions_type=type(sp.acts[s]).__name__))
